@@ -30,7 +30,7 @@ GEN_TAKES_PROP = True
 
 KINDS = ("generic_c", "generic_u", "generic_us", "read1", "readfrag", "write1", "writefrag", "rmw", "multiread",
          "multiwrite", "upload_page", "upload_template", "upload_template_attrs", "register", "list_identity", "plc_info",
-         "discover")
+         "discover", "readbit", "readboolarr")
 # services for which status 6 means "more to come" and the library must continue
 CONTINUE_6 = {"readfrag", "upload_page", "upload_template"}
 # members of the library's MULTI_PACKET_SERVICES where the statement does not decide what 6 means
@@ -377,7 +377,7 @@ def run(sc):
                                             instance=1, attribute=1, connected=mode == "connected",
                                             unconnected_send=mode == "unconnected_send",
                                             data_type=getattr(lib, op["data_type"]) if op.get("data_type") else None)
-            elif kind in ("read1", "readfrag", "multiread"):
+            elif kind in ("read1", "readfrag", "multiread", "readbit", "readboolarr"):
                 outcome, res = harness.call(sim, drv.read, *op["texts"])
             elif kind in ("write1", "writefrag", "rmw", "multiwrite"):
                 outcome, res = harness.call(sim, drv.write, *[(t, v) for t, v in zip(op["texts"], op["values"])])
@@ -556,7 +556,7 @@ def desc(mut):
 # ---------------------------------------------------------------------------
 TAGS = [{"name": "d", "type": "DINT", "dims": []}, {"name": "e", "type": "INT", "dims": [4]},
         {"name": "big", "type": "DINT", "dims": [420]}, {"name": "w", "type": "DINT", "dims": []},
-        {"name": "s", "type": "UD", "dims": []}]
+        {"name": "s", "type": "UD", "dims": []}, {"name": "ba", "type": "DWORD", "dims": [2]}]
 TYPES = {"UD": {"name": "UD", "template_id": 0x123, "handle": 0x4242, "size": 8, "align": 4, "string_cap": None,
                 "predefined": False, "members": [
                     {"name": "a", "type": "DINT", "array": 0, "offset": 0, "bit": None, "hidden": False},
@@ -575,6 +575,13 @@ def base_scenario(kind, seed, fw=32):
         sc["count_service"] = 0x0E
     elif kind == "read1":
         sc["op"] = {"texts": ["d"]}
+        sc["count_service"] = 0x4C
+    elif kind == "readbit":
+        # a bit of an integer: the library reads the word and picks the bit out of the reply itself
+        sc["op"] = {"texts": ["w.3"] if seed % 2 else ["d", "w.3"]}
+        sc["count_service"] = 0x4C if seed % 2 else 0x0A
+    elif kind == "readboolarr":
+        sc["op"] = {"texts": [("ba[5]", "ba[0]{40}", "ba[33]")[seed % 3]]}
         sc["count_service"] = 0x4C
     elif kind == "readfrag":
         sc["op"] = {"texts": ["big{420}"]}
